@@ -73,7 +73,90 @@ fn params(s: &Signing) -> (Vec<u8>, u16, bool) {
 }
 
 fn build_world(spec: &ZoneSpec, signing: &Signing) -> Result<World, String> {
-    let built = vzone::build(spec, signing)?;
+    world_from_built(spec, signing, vzone::build(spec, signing)?)
+}
+
+/// Construction paths: the zone built through `FileZoneHandler::try_from_config` and through both starts of
+/// `SqliteZoneHandler::try_from_config`, the NSEC3 parameters DESERIALISED as the configuration file gives them
+/// (all four fields of `NxProofKind::Nsec3`, pairwise different non-default values), signed the way the binary's
+/// `load_keys` does; the published chain is compared with the chain the reference builds for these parameters
+/// (`check_chain`, exact), the NSEC3PARAM with the configured (algorithm, iterations, salt), and the server's own
+/// denials are validated end to end (`completeness`).
+const CTOR_CASES: usize = 18;
+
+fn ctor_paths(rt: &tokio::runtime::Runtime, l: &mut Local, only: Option<usize>) {
+    let mut index = 0usize;
+    use vzone::ctor::{self, CtorKnobs, CtorPath};
+    let zones = [
+        ZoneSpec::new("z.", &[("a.z.", Kind::A), ("*.z.", Kind::A)]),
+        ZoneSpec::new("z.", &[("a.z.", Kind::Ns), ("b.z.", Kind::NsDs), ("a.b.z.", Kind::A)]),
+        ZoneSpec::new("z.", &[("a.a.a.z.", Kind::A), ("*.a.z.", Kind::A)]),
+    ];
+    let params = [
+        Signing::Nsec3 { iterations: 3, salt: vec![0xab, 0xcd], opt_out: true },
+        Signing::Nsec3 { iterations: 2, salt: vec![0x01, 0x02, 0x03], opt_out: false },
+    ];
+    let base = if std::path::Path::new("/dev/shm").is_dir() { std::path::PathBuf::from("/dev/shm") } else { std::env::temp_dir() };
+    let dir = base.join(format!("verif-c09-ctor-{}-{}", std::process::id(), only.map(|i| i.to_string()).unwrap_or_default()));
+    for spec in &zones {
+        for signing in &params {
+            for path in [CtorPath::File, CtorPath::SqliteFirst, CtorPath::SqliteSecond] {
+                index += 1;
+                if only.map(|o| o != index - 1).unwrap_or(false) {
+                    continue;
+                }
+                let _ = std::fs::remove_dir_all(&dir);
+                if std::fs::create_dir_all(&dir).is_err() {
+                    l.outcome("ctor:scratch-dir-unavailable");
+                    return;
+                }
+                let case = || json!({"level": "ctor", "zone": spec.to_json(), "signing": signing.tag(), "path": path.tag()});
+                let built = vcore::catch(|| ctor::build_via(path, spec, signing, &CtorKnobs::NON_DEFAULT, &dir, rt));
+                let _ = std::fs::remove_dir_all(&dir);
+                let built = match built {
+                    Ok(Ok((b, _))) => b,
+                    Ok(Err(e)) => {
+                        l.violation(&format!("ctor:{}:build-failed", path.tag()), &e, case);
+                        continue;
+                    }
+                    Err(p) => {
+                        l.violation(&format!("panic:{}", vcore::short_loc(&p.loc)), &p.msg, case);
+                        continue;
+                    }
+                };
+                let (salt, iterations, _) = params_of(signing);
+                let published = ctor::nsec3params(&built.records);
+                l.eval();
+                if published.len() != 1 || published[0].0 != 1 || published[0].2 != iterations || published[0].3 != salt {
+                    l.violation(&format!("ctor:{}:nsec3param:parameters", path.tag()), &format!("published NSEC3PARAM {published:?}, configured (1, {iterations}, {salt:02x?})"), case);
+                }
+                match world_from_built(spec, signing, built) {
+                    Err(e) => l.violation(&format!("ctor:{}:build-failed", path.tag()), &e, case),
+                    Ok(w) => {
+                        // (a defective chain is reported by check_chain under its usual chain:* key)
+                        if check_chain(&w, l) {
+                            l.outcome("ctor:chain:as-reference");
+                        } else {
+                            l.outcome("ctor:chain:differs-from-reference");
+                        }
+                        // the File path signs at the real clock (its provider is fixed): the signatures are outside the
+                        // validity window of the virtual clock, so only the Sqlite paths are validated end to end
+                        if path != CtorPath::File {
+                            completeness(&w, rt, l, None);
+                            l.outcome("ctor:completeness-run");
+                        }
+                    }
+                }
+            }
+        }
+    }
+}
+
+fn params_of(s: &Signing) -> (Vec<u8>, u16, bool) {
+    params(s)
+}
+
+fn world_from_built(spec: &ZoneSpec, signing: &Signing, built: Built) -> Result<World, String> {
     let origin = vzone::hname(&spec.origin);
     let mut recs = vec![];
     for (owner, n) in built.nsec3s() {
@@ -329,6 +412,91 @@ fn e2e_case_rcode(world: &World, rt: &tokio::runtime::Runtime, query: &Query, so
         None
     });
     vzone::validate(rt, up, world.anchors(), query.clone(), limits)
+}
+
+/// Iteration limits through the handle's BUILDER (`DnssecDnsHandle::with_trust_anchor(..).nsec3_iteration_limits(soft,
+/// hard)`, the function the resolver's and the recursor's limit options funnel into), not handed to `verify_nsec3`:
+/// (soft, hard) in {unset, 0, 20, 40, 100, 150}^2 - hard < soft, hard == soft, only one of them set included - x a zone
+/// signed by the real signer with `it` iterations x the server's own NXDOMAIN answer, validated end to end.
+/// Oracle (the builder's documentation; an unset limit keeps its default 100 / 500): iterations above the hard limit
+/// in force => Bogus, whatever the soft limit is; above the soft limit only => Insecure; otherwise Secure.
+const BUILDER_ITERATIONS: [u16; 13] = [0, 19, 20, 21, 39, 40, 41, 99, 100, 101, 149, 150, 151];
+
+fn limits_through_builder(it: u16, rt: &tokio::runtime::Runtime, l: &mut Local) {
+    let spec = ZoneSpec::new("z.", &[("a.z.", Kind::A)]);
+    let signing = Signing::Nsec3 { iterations: it, salt: vec![0xab], opt_out: false };
+    let case = |soft: Option<u16>, hard: Option<u16>| json!({"level": "limits-builder", "zone": spec.to_json(), "signing": signing.tag(), "iterations": it, "soft": soft, "hard": hard, "qname": "b.z.", "qtype": 1});
+    let w = match build_world(&spec, &signing) {
+        Ok(w) => w,
+        Err(e) => {
+            l.violation("zone-build-failed", &e, || case(None, None));
+            return;
+        }
+    };
+    let answer = match vzone::ask(rt, &w.built.catalog, "b.z.", rz::T_A, true) {
+        Ok(m) if m.metadata.response_code == ResponseCode::NXDomain => through_the_wire(m),
+        other => {
+            l.violation("limits-builder:no-nxdomain-from-server", &format!("{:?}", other.map(|m| m.metadata.response_code)), || case(None, None));
+            return;
+        }
+    };
+    let key = dnskey_response(&w);
+    let query = Query::new(vzone::hname("b.z."), RecordType::A);
+    let values = [None, Some(0u16), Some(20), Some(40), Some(100), Some(150)];
+    for soft in values {
+        for hard in values {
+            let (key, answer, origin) = (key.clone(), answer.clone(), w.origin.clone());
+            let up = Upstream::new(move |q: &Query| {
+                if q.query_type == RecordType::DNSKEY && q.name == origin {
+                    return Some(key.clone());
+                }
+                if q.query_type == RecordType::A {
+                    return Some(answer.clone());
+                }
+                None
+            });
+            let handle = hickory_net::dnssec::DnssecDnsHandle::with_trust_anchor(up, w.anchors()).nsec3_iteration_limits(soft, hard);
+            l.eval();
+            let e = match vcore::catch(|| vzone::validate_with(rt, &handle, query.clone())) {
+                Ok(e) => e,
+                Err(p) => {
+                    l.violation(&format!("panic:{}", vcore::short_loc(&p.loc)), &p.msg, || case(soft, hard));
+                    continue;
+                }
+            };
+            let (s_eff, h_eff) = (soft.unwrap_or(SOFT), hard.unwrap_or(HARD));
+            let want = if it > h_eff {
+                Proof::Bogus
+            } else if it > s_eff {
+                Proof::Insecure
+            } else {
+                Proof::Secure
+            };
+            let relation = if h_eff < s_eff {
+                "hard<soft"
+            } else if h_eff == s_eff {
+                "hard=soft"
+            } else {
+                "hard>soft"
+            };
+            let set = match (soft, hard) {
+                (None, None) => "none-set",
+                (Some(_), None) => "soft-set",
+                (None, Some(_)) => "hard-set",
+                _ => "both-set",
+            };
+            if e2e_agrees(want, &e) {
+                l.outcome(&format!("limits-builder:{relation}:{set}:{}", format!("{want:?}").to_lowercase()));
+            } else {
+                let pos = if it > h_eff { "above-hard" } else if it > s_eff { "above-soft" } else { "within-limits" };
+                l.violation(
+                    &format!("limits-builder:{relation}:{set}:{pos}:expected-{}:got-{}", format!("{want:?}").to_lowercase(), e.class()),
+                    &format!("nsec3_iteration_limits({soft:?}, {hard:?}) (in force: soft {s_eff}, hard {h_eff}), NSEC3 records with {it} iterations: the NXDOMAIN comes back as {}, the configured limits say {want:?}", e.class()),
+                    || case(soft, hard),
+                );
+            }
+        }
+    }
 }
 
 fn e2e_agrees(hook: Proof, e: &E2e) -> bool {
@@ -1398,6 +1566,8 @@ fn main() {
             Some("limits") => iteration_limits(&spec, &rt, l, &cnt),
             Some("boundary") => boundary_params(&spec, true, true, None, &rt, l, &cnt),
             Some("e2e-foreign") => e2e_foreign_zone_nsec3(&rt, l),
+            Some("ctor") => ctor_paths(&rt, l, None),
+            Some("limits-builder") => limits_through_builder(case["iterations"].as_u64().unwrap_or(0) as u16, &rt, l),
             Some("reowned") => {
                 let w = build_world(&spec, &Signing::from_tag(case["signing"].as_str().unwrap_or("nsec3:i0:s-:noopt")).unwrap()).unwrap();
                 reowned(&spec, &w, l);
@@ -1552,6 +1722,10 @@ fn main() {
 
     phases.push(("boundary", t0.elapsed().as_secs_f64()));
     ctx.set("phase_end_s", json!(phases.iter().map(|(n, t)| json!([n, (t * 10.0).round() / 10.0])).collect::<Vec<_>>()));
+    // construction paths (3 zones x 2 parameter sets x 3 from-config paths)
+    ctx.par_run_init(CTOR_CASES as u64, 1, |_| vsim::rt(), |i, l, rt| ctor_paths(rt, l, Some(i as usize)));
+    // iteration limits through the validator's builder (13 iteration counts x 36 limit pairs, end to end)
+    ctx.par_run_init(BUILDER_ITERATIONS.len() as u64, 1, |_| vsim::rt(), |i, l, rt| limits_through_builder(BUILDER_ITERATIONS[i as usize], rt, l));
     ctx.with_local(codec_family);
     if WIRE_FAILURES.load(Ordering::Relaxed) > 0 {
         ctx.with_local(|l| {
@@ -1580,6 +1754,12 @@ fn main() {
     need.insert("codec:genuine-nsec3-emit:as-reference", "no genuine NSEC3 was compared with the reference octets");
     need.insert("second-validation:same-verdict", "no server answer was validated a second time");
     need.insert("defective-chain:replaced-by-reference-chain", "no zone was run on the reference-produced chain");
+    need.insert("limits-builder:hard<soft:hard-set:bogus", "no hard limit below the default soft limit was configured through the builder");
+    need.insert("limits-builder:hard<soft:both-set:bogus", "no hard limit below a configured soft limit was configured through the builder");
+    need.insert("limits-builder:hard>soft:both-set:insecure", "no iteration count between the configured limits was validated through the builder");
+    need.insert("limits-builder:hard>soft:none-set:secure", "the default limits were never exercised through the builder");
+    need.insert("ctor:chain:as-reference", "no chain of a zone built through a from-config path matched the reference chain");
+    need.insert("ctor:completeness-run", "no zone built through a from-config path was validated end to end");
     need.insert("shape:ent-first-descendant-2-below", "no zone had an empty non-terminal whose first descendant is two or more labels below it");
     need.insert("shape:ent-above-ent", "no zone had an empty non-terminal directly above another one");
     need.insert("shape:wildcard-below-ent-chain", "no zone had a wildcard below a chain of two empty non-terminals");
